@@ -25,7 +25,12 @@ RULE = ("bin tables of 1..6 chromosomes (incl. X/Y) x 1..400 bins, optional cent
         "(`cnvkit.py segment` on a written .cnr: -m METHOD, --drop-low-coverage present/absent, --drop-outliers {absent = 10, 0, 3, 10}, "
         "-p {absent = 1, N, bare = all CPUs}, -t {absent, FDR for haar, smoothing window for the HMMs}; the table handed to the "
         ".cns writer is judged like an API result, the written .cns must read back equal to it, and the same call through the "
-        "API with the same threshold must give the same segments). non-trivial = a bin was filtered out or a chromosome "
+        "API with the same threshold must give the same segments). Fallback cells: per method (none, haar, an HMM) a table / chromosome / "
+        "arm losing every bin to skip_low, zero weights or min_weight; and transfer_fields(segments, cnarr) called on its own "
+        "(op transfer: bin table with / without weight column x with / without depth column, one chromosome or several, "
+        "segments = runs of bins of which a third span zero-weight bins only and a fifth are left out, segment table with 6 / 8 / "
+        "permuted columns, no segments -> the make_null_segment tuple, no bins -> segments unchanged), each real row judged by "
+        "the Lean row oracle transferSpec and compared with the model transferFields. non-trivial = a bin was filtered out or a chromosome "
         "was split into arms or more than one segment was reported; distinct by hash")
 EXHAUSTIVE = {"quick": False, "thorough": False}
 ASSUMPTIONS = ["input bins sorted, non-overlapping, positive length (a .cnr table)",
@@ -196,6 +201,8 @@ def _dead_case(rng, method, rnd):
     names = ["chr1", "chr2"] if rng.random() < 0.7 else ["chr1"]
     for ci, c in enumerate(names):
         n = rng.randint(104, 130) if (what == "arm" and ci == 0) else rng.choice([1, 3, 9, 25])
+        if method.startswith("hmm") and n < 25:
+            n = rng.choice([25, 40, 60])  # (too few surviving bins make pomegranate fail: finding U, not the point here)
         cm = rng.randint(52, n - 52) if n > 103 else -1
         side = rng.random() < 0.5
         pos = rng.randint(0, 5000)
@@ -568,6 +575,7 @@ def _tf_judge(case, impl, resp):
         return [], ["model error: " + resp["error"]], None
     i = case["in"]
     out, dis = resp["out"], []
+    spec = list(resp.get("spec") or [])
     names = ["chromosome", "start", "end", "gene", "log2", "probes", "weight", "depth"]
     if resp["kind"] == "null":
         if impl["kind"] != "null":
@@ -607,7 +615,7 @@ def _tf_judge(case, impl, resp):
                     break
             if dis:
                 break
-    return [], dis, None
+    return spec, dis, None
 
 
 def run_impl(case):
